@@ -204,7 +204,16 @@ impl Gen<'_> {
                     1 => Stmt::Mix(Expr::Timestamp),
                     2 => Stmt::Mix(Expr::Caller),
                     3 => Stmt::Mix(Expr::Origin),
-                    4 => Stmt::Mix(Expr::BlockHash(Box::new(imm(90 + self.rng.below(10))))),
+                    4 => {
+                        if self.rng.chance(1, 2) {
+                            Stmt::Mix(Expr::BlockHash(Box::new(imm(90 + self.rng.below(10)))))
+                        } else {
+                            // relative to the executing block: the newest, the oldest two still served (two
+                            // consecutive blocks then ask for numbers exactly 256 apart) and one too old
+                            let k = *self.rng.pick(&[1u64, 1, 2, 255, 256, 256, 257]);
+                            Stmt::Mix(Expr::BlockHash(Box::new(add(Expr::Number, Expr::Imm(U256::ZERO.wrapping_sub(U256::from(k)))))))
+                        }
+                    }
                     _ => Stmt::Mix(Expr::CallValue),
                 },
                 9 => Stmt::SelfDestruct(self.addr_value()),
@@ -735,7 +744,7 @@ pub fn generate(seed: u64, opts: &GenOptions) -> Scenario {
     let scenario = Scenario {
         evm: EvmSpec { spec, chain_id: 1, disable_nonce_check },
         block: BlockSpec {
-            number: 100,
+            number: *g.rng.pick(&[100u64, 100, 1000, 300]),
             beneficiary,
             timestamp: 1_700_000_000,
             gas_limit: 30_000_000,
